@@ -42,6 +42,7 @@ EvalX(e, env) ==
   ELSE IF e.k = "mo" THEN MonadD(e.op, EvalX(e.a, env))
   ELSE Eval(e, env)
 
+MixM == L(<<L(<<S(<<112>>), I(1)>>), L(<<S(<<114>>), I(2)>>)>>)       \* [["p" 1] ["r" 2]]
 Stmts == <<
   Asg("a", Lit(Ints(<<1, 2, 3>>))), Asg("a", Lit(Ints(<<4, 5, 6, 7>>))), Asg("b", Var("a")),
   Asg("c", Dy(":=", Var("a"), Pair(9, 0))), Asg("a", Dy(":=", Var("a"), Pair(8, 1))),
@@ -54,31 +55,56 @@ Stmts == <<
   Ex(CallF("g1", Lit(I(5)))), Ex(CallF("g1", Lit(I(6)))),
   Asg("a", Mo("!", Lit(I(4)))), Asg("b", Dy("+", Var("a"), Lit(I(1)))), Asg("d", Dy("@", Var("a"), Lit(Ints(<<0, 1>>)))),
   Asg("d", CallF("h1", Lit(I(9)))), Asg("e", Dy(":+", Lit(I(1)), Var("a"))), Asg("c", Dy(":^", Lit(Ints(<<2, 2>>)), Var("a"))),
-  Asg("c", Mo("+", Var("c"))), Asg("e", Dy("@", Var("c"), Lit(I(0)))), Asg("e", Dy(":=", Var("e"), Pair(3, 0)))
+  Asg("c", Mo("+", Var("c"))), Asg("e", Dy("@", Var("c"), Lit(I(0)))), Asg("e", Dy(":=", Var("e"), Pair(3, 0))),
+  \* a list of mixed kinds amended in depth with symbols and strings (through aliases, reversed and dropped sub-lists)
+  Asg("a", Lit(MixM)), Asg("b", Dy(":-", Var("a"), Lit(L(<<Y(<<122>>), I(0), I(1)>>)))),
+  Asg("c", Dy(":-", Var("a"), Lit(L(<<S(<<113, 113>>), I(1), I(0)>>)))), Asg("e", Dy(":-", Var("e"), Lit(L(<<Y(<<122>>), I(0), I(0)>>)))),
+  Asg("d", Dy("_", Lit(I(1)), Var("a"))), Asg("d", Dy(":-", Var("d"), Lit(L(<<S(<<119>>), I(0), I(0)>>)))),
+  \* module switches: the SAME statement texts are evaluated before, inside and after a module
+  [k |-> "modin"], [k |-> "modout"], Asg("a", Dy("+", Var("a"), Lit(I(1)))), Ex(Var("a"))
 >>
 
-VARIABLES env, hist, n
-vars == <<env, hist, n>>
+\* Variable state = three scopes: the globals defined before the module (env), the module's own names (menv, written
+\* a`m by the reader) and the names created after the module was closed (penv); ph = 0 before, 1 inside, 2 after the module.
+\* Lookup and assignment follow klongpy's KlongContext: inside the module an assignment always creates/updates the
+\* module's own name and a read falls back to the global; after the module a read sees the module's name first (exports)
+\* while an assignment updates an existing global (module names are not assignable from outside).  This rule is the
+\* implementation's; the harness reports a disagreement with it as SPEC-DRIFT and judges only A against B there.
+VARIABLES env, menv, penv, ph, hist, n
+vars == <<env, menv, penv, ph, hist, n>>
 Names == {"a", "b", "c", "d", "e"}
 Unbound == [t |-> "unbound", v |-> 0]
 Bound(e) == [q \in {m \in Names : e[m].t # "unbound"} |-> e[q]]
+IsB(e, q) == e[q].t # "unbound"
+Eff(g, m, p, h) == [q \in Names |-> IF h = 2 /\ IsB(p, q) THEN p[q] ELSE IF h >= 1 /\ IsB(m, q) THEN m[q] ELSE g[q]]
+Target(q) == IF ph = 0 THEN "g" ELSE IF ph = 1 THEN "m" ELSE IF IsB(penv, q) THEN "p" ELSE IF IsB(env, q) THEN "g" ELSE "p"
+Snap(g, m, p, h) == [g |-> Bound(g), m |-> Bound(m), p |-> Bound(p), ph |-> h]
 
-Init == env = [m \in Names |-> Unbound] /\ hist = <<>> /\ n = 0
+Init == env = [m \in Names |-> Unbound] /\ menv = env /\ penv = env /\ ph = 0 /\ hist = <<>> /\ n = 0
 
-Value(s) == EvalX(IF s.k = "assign" THEN s.e ELSE s.e, Bound(env))
+Value(s) == IF s.k \in {"modin", "modout"} THEN I(0) ELSE EvalX(s.e, Bound(Eff(env, menv, penv, ph)))
 
 Exec(i) ==
   /\ n < MaxLen /\ n' = n + 1
-  /\ LET s == Stmts[i] v == Value(s) IN
+  /\ LET s == Stmts[i] v == Value(s)
+         tg == IF s.k = "assign" THEN Target(s.n) ELSE "-"
+         g2 == IF tg = "g" THEN [env EXCEPT ![s.n] = v] ELSE env
+         m2 == IF tg = "m" THEN [menv EXCEPT ![s.n] = v] ELSE menv
+         p2 == IF tg = "p" THEN [penv EXCEPT ![s.n] = v] ELSE penv
+         h2 == IF s.k = "modin" THEN 1 ELSE IF s.k = "modout" THEN 2 ELSE ph IN
      /\ ~HasErr(v)                                  \* statements outside the defined domain are not taken
-     /\ env' = IF s.k = "assign" THEN [env EXCEPT ![s.n] = v] ELSE env
-     /\ hist' = IF RecordHist THEN Append(hist, [i |-> i, stmt |-> s, val |-> v, pre |-> Bound(env),
-                                               post |-> Bound(IF s.k = "assign" THEN [env EXCEPT ![s.n] = v] ELSE env)])
+     /\ s.k = "modin" => ph = 0                     \* one module, entered once and left once
+     /\ s.k = "modout" => ph = 1
+     /\ env' = g2 /\ menv' = m2 /\ penv' = p2 /\ ph' = h2
+     /\ hist' = IF RecordHist THEN Append(hist, [i |-> i, stmt |-> s, val |-> v, pre |-> Snap(env, menv, penv, ph),
+                                               post |-> Snap(g2, m2, p2, h2)])
                 ELSE hist
 
 Next == \E i \in 1..Len(Stmts) : Exec(i)
 
-\* the frame condition, as an action property: a statement changes no variable but the one it assigns
-Frame == [][\A m \in Names : ~Same(env'[m], env[m]) => \E i \in 1..Len(Stmts) : Stmts[i].k = "assign" /\ Stmts[i].n = m]_vars
+\* the frame condition, as an action property: a statement changes at most the one variable it assigns, in one scope
+Changed(q) == (IF Same(env'[q], env[q]) THEN 0 ELSE 1) + (IF Same(menv'[q], menv[q]) THEN 0 ELSE 1) + (IF Same(penv'[q], penv[q]) THEN 0 ELSE 1)
+Frame == [][/\ \A q \in Names : Changed(q) > 0 => \E i \in 1..Len(Stmts) : Stmts[i].k = "assign" /\ Stmts[i].n = q
+            /\ Cardinality({q \in Names : Changed(q) > 0}) <= 1 /\ \A q \in Names : Changed(q) <= 1]_vars
 Emit == (RecordHist /\ n = MaxLen) => PrintT(ToJson(hist))
 =============================================================================
